@@ -147,6 +147,9 @@ def dp17Ops (cfg : DP17Cfg) : SchemeOps where
   token lv key w := DP17.token cfg lv key w
 
 def pi2LevOps (cfg : Pi2LevCfg) : SchemeOps where
+  hyps lv key db t absent := match key1 key with
+    | .ok K => Pi2Lev.hypsB cfg lv K db t absent
+    | .error _ => false
   keyGen t := do let (k, t') ← Pi2Lev.keyGen cfg t; pure ([k], t')
   setup lv key db t := do
     let K ← key1 key
